@@ -109,11 +109,20 @@ class Awaitable:
         return self.coro.__await__()
 
 
+def _immutable(self: Any, name: str, value: Any) -> None:
+    raise AttributeError(f"cannot assign to field {name!r}")       # (what a frozen dataclass does)
+
+
+# user exceptions whose class refuses attribute assignment (frozen dataclasses, slotted classes): nobody has any
+# business writing to an exception a callback raised
+FROZEN_EXN = [type(c.__name__, (c,), {"__setattr__": _immutable}) for c in EXN]
+
+
 def exc_name(e: BaseException | None) -> str:
     if e is None:
         return "None"
     for i, c in enumerate(EXN):
-        if type(e) is c:
+        if type(e) is c or type(e) is FROZEN_EXN[i]:
             return f"exn{i}"
     for i, c in enumerate(BASE):
         if type(e) is c:
@@ -130,7 +139,9 @@ def exc_name(e: BaseException | None) -> str:
     return "other:" + type(e).__name__
 
 
-def make_exc(spec: dict[str, Any]) -> BaseException:
+def make_exc(spec: dict[str, Any], frozen: bool = False) -> BaseException:
+    if frozen and spec["k"] == "exn":
+        return FROZEN_EXN[spec["n"]]()
     return (EXN if spec["k"] == "exn" else BASE)[spec["n"]]()
 
 
@@ -303,7 +314,7 @@ class Kernel:
                 return
             kern.tdlog.append(f"td- {spec['id']} {spec_name(spec['raises'])}")
             if spec["raises"] is not None:
-                raise make_exc(spec["raises"])
+                raise make_exc(spec["raises"], frozen=spec["id"] % 2 == 0)
 
         def cancelled_at_first_checkpoint(args: tuple[Any, ...]) -> None:
             # the awaitable was invoked and then cancelled before it could do anything
